@@ -24,7 +24,19 @@ def evaluate(plan: dict, script: Optional[list] = None, explain: bool = True) ->
 
     Runs in a pristine process (worker or coordinator); forks every execution."""
     base = proc.fork_call(engine.child_serial, plan, None, True)
-    sim = proc.fork_call(engine.child_simulate, plan, script)
+    opcode_crash = False
+    try:
+        sim = proc.fork_call(engine.child_simulate, plan, script)
+    except proc.HarnessError as e:
+        # CPython 3.12.1 can segfault under opcode-level tracing (instrumentation of a code object
+        # while another thread is parked inside it; generator frames; exception tables).  The
+        # crash is the interpreter's, not the tree's: fall back to line granularity for this plan
+        # and count it.  A crash at line granularity stays a harness error.
+        if not plan.get("opcode") or "exited with status" not in str(e):
+            raise
+        opcode_crash = True
+        plan = dict(plan, opcode=False)
+        sim = proc.fork_call(engine.child_simulate, plan, script)
     base_nf = None
     if plan.get("fault"):
         base_nf = proc.fork_call(engine.child_serial, plan, None, False)
@@ -54,6 +66,7 @@ def evaluate(plan: dict, script: Optional[list] = None, explain: bool = True) ->
         "ops": len(base["pre"]) + len(base["post"]),
         "results_digest": _rdigest(sim),
         "exc_ops": sum(1 for r in base["pre"].values() if r[0] == "exc"),
+        "opcode_crash": opcode_crash,
     }
 
 
@@ -340,6 +353,7 @@ class Agg:
         self.cache_pressure = 0
         self.opcode_runs = 0
         self.opcode_kinds: Dict[str, int] = {}
+        self.opcode_crashes = 0
         self.lock_contention = 0
         self.lock_acquires = 0
         self.explained = 0
@@ -373,6 +387,7 @@ class Agg:
         if pb["opcode"]:
             self.opcode_runs += 1
             self.opcode_kinds[str(pb["opcode"])] = self.opcode_kinds.get(str(pb["opcode"]), 0) + 1
+        self.opcode_crashes += 1 if r.get("opcode_crash") else 0
         self.lock_contention += r["lock_contention"]
         self.lock_acquires += r["lock_acquires"]
         self.explained += 1 if r["explained"] else 0
@@ -418,6 +433,7 @@ class Agg:
                 "cache_pressure_runs": self.cache_pressure,
                 "opcode_granularity_runs": self.opcode_runs,
                 "opcode_granularity_by_kind": self.opcode_kinds,
+                "opcode_runs_rerun_at_line_granularity_after_interpreter_crash": self.opcode_crashes,
                 "lock_contention_blocks": self.lock_contention,
                 "lock_acquires": self.lock_acquires,
                 "fault_free_runs": self.fault_free_runs,
